@@ -361,3 +361,23 @@ func (s *RelState) String() string {
 	sort.Strings(parts)
 	return strings.Join(parts, " ∧ ")
 }
+
+// Forget drops every fact mentioning a term with the given prefix (memory that
+// a callee may have modified).
+func (s *RelState) Forget(prefix string) {
+	for k := range s.pairs {
+		if strings.Contains(k, prefix) {
+			delete(s.pairs, k)
+		}
+	}
+	for k := range s.bools {
+		if strings.Contains(k, prefix) {
+			delete(s.bools, k)
+		}
+	}
+	for k := range s.ints {
+		if strings.Contains(k, prefix) {
+			delete(s.ints, k)
+		}
+	}
+}
